@@ -14,7 +14,9 @@ RULE = ("engine A: for the crash templates every ninja invocation is run under e
 
 RB_RULE = ("; engine B: the unmodified ninja executable with gated helper commands run through /bin/sh as compound commands: "
            "SIGINT, SIGTERM, SIGHUP and SIGKILL are delivered at each of the first three waits of a fresh and of an "
-           "incremental build, with the oldest running command either untouched or having already overwritten its outputs: "
+           "incremental build (to the ninja process; with console commands also to its process group, as a terminal does), with "
+           "the oldest running command either untouched or having already overwritten its outputs (not for SIGKILL: the property "
+           "assumes atomic replacement there), and while ninja is outside ppoll() with a descriptor ready when it returns: "
            "exit 130, lock file gone, no command process survives, overwritten outputs removed; the next build succeeds, "
            "equals a clean build and converges")
 
